@@ -1616,6 +1616,17 @@ where
                 return events;
             }
 
+            // Check receive_maximum for sending before anything is stored or any
+            // topic alias is registered: a refused packet must leave no trace
+            if let Some(max) = self.publish_send_max {
+                if self.publish_send_count >= max {
+                    events.push(GenericEvent::NotifyError(MqttError::ReceiveMaximumExceeded));
+                    self.pid_man.release_id(packet_id);
+                    events.push(GenericEvent::NotifyPacketIdReleased(packet_id));
+                    return events;
+                }
+            }
+
             if self.need_store
                 && (self.status != ConnectionStatus::Disconnected || self.offline_publish)
             {
@@ -1728,24 +1739,11 @@ where
             }
         }
 
-        // Check receive_maximum for sending (QoS 1 and 2 packets)
-        if packet.qos() == Qos::AtLeastOnce || packet.qos() == Qos::ExactlyOnce {
-            if let Some(max) = self.publish_send_max {
-                if self.publish_send_count >= max {
-                    events.push(GenericEvent::NotifyError(MqttError::ReceiveMaximumExceeded));
-                    if let Some(packet_id) = packet_id_opt {
-                        if self.pid_man.is_used_id(packet_id) {
-                            self.pid_man.release_id(packet_id);
-                            self.store.erase_publish(packet_id);
-                            self.pid_puback.remove(&packet_id);
-                            self.pid_pubrec.remove(&packet_id);
-                            events.push(GenericEvent::NotifyPacketIdReleased(packet_id));
-                        }
-                    }
-                    return events;
-                }
-                self.publish_send_count += 1;
-            }
+        // Count the packet against receive_maximum (checked above)
+        if (packet.qos() == Qos::AtLeastOnce || packet.qos() == Qos::ExactlyOnce)
+            && self.publish_send_max.is_some()
+        {
+            self.publish_send_count = self.publish_send_count.saturating_add(1);
         }
 
         if self.status == ConnectionStatus::Connected {
